@@ -69,4 +69,44 @@ def run : St → List Act → St
 def expected (s : St) : List Nat :=
   (if s.upgraded then [jobOpen] else []) ++ (List.range s.accMsgs).map jobMsg ++ (if s.notified then [jobClose] else [])
 
+/-! ## the transferred path (`UpgradeAndTransferConnToPoller`, upgrader.go:465-506)
+
+There `Upgrade` runs in the blocking server's handler goroutine: it registers the conn with the poller
+(`AddTransferredConn`), writes the 101 response, and only then calls the open handler — **outside** the conn's job
+queue. Messages the client sends on receipt of the response are parsed by the poller and dispatched through the job
+queue while the open handler may still be running. `TSt.log` records completed callbacks of both kinds. -/
+
+structure TSt where
+  base : St
+  log  : List Nat
+  openDone : Bool
+  deriving Repr
+
+def tinit : TSt := { base := init, log := [], openDone := false }
+
+inductive TAct
+  | register      -- AddTransferredConn + 101 response: the poller may deliver messages from now on
+  | openCb        -- the open handler (called by Upgrade after the response) completes
+  | recv | flip | notify | run | next
+  deriving Repr
+
+def tstep (s : TSt) : TAct → Option TSt
+  | .register => if s.base.upgraded then none else some { s with base := { s.base with upgraded := true } }
+  | .openCb =>
+    if s.base.upgraded && !s.openDone then some { s with log := s.log ++ [jobOpen], openDone := true } else none
+  | .recv => (step s.base .recv).map fun b => { s with base := b }
+  | .flip => (step s.base .flip).map fun b => { s with base := b }
+  | .notify => (step s.base .notify).map fun b => { s with base := b }
+  | .run =>
+    match s.base.q.drainer, s.base.q.list[s.base.q.idx]? with
+    | some false, some j => (step s.base .run).map fun b => { s with base := b, log := s.log ++ [j] }
+    | _, _ => none
+  | .next => (step s.base .next).map fun b => { s with base := b }
+
+def trun : TSt → List TAct → TSt
+  | s, [] => s
+  | s, a :: as => match tstep s a with
+    | some s' => trun s' as
+    | none => trun s as
+
 end WsCb
